@@ -45,3 +45,10 @@ def make0():
 
 def fann(opts: dict, flag=None):
     return None
+
+
+import nest  # noqa: E402
+
+
+def fgen(b: nest.Holder.GBox[int], x=None):
+    return None
